@@ -80,6 +80,8 @@ class SE:
         self.curpc = z3.BoolVal(True)
         self.elide_timeout_ms = elide_timeout_ms
         self.depth = 0
+        self.initial = {}      # lvalue path -> the variable standing for its value before any write (one per lifetime)
+        self.kinds = {}        # lvalue path -> machine type kind, recorded at reads and writes
 
     def newvar(self, name, k):
         self.fresh += 1
@@ -132,15 +134,25 @@ class SE:
         k = tkind(t)
         if k[0] == 'struct':
             return ('struct', path)
+        self.kinds[path] = k
         if path not in st:
-            st[path] = self.newvar(path, k) if k[0] != 'pointer' else ('addr', None)
+            st[path] = self.initial_value(path, k)
         return st[path]
+
+    def initial_value(self, path, k):
+        if k[0] == 'pointer':
+            return ('addr', None)
+        if path not in self.initial:
+            self.initial[path] = self.newvar(path, k)
+        return self.initial[path]
 
     def write(self, path, val, st):
         if isinstance(val, tuple) and val[0] == 'struct':
             src = val[1]
-            for p in [p for p in list(st.keys()) if p.startswith(src + '.')]:
+            for p in [p for p in list(st.keys()) if p.startswith(src + '.') or p.startswith(src + '[')]:
                 st[path + p[len(src):]] = st[p]
+                if p in self.kinds:
+                    self.kinds[path + p[len(src):]] = self.kinds[p]
         else:
             st[path] = val
 
@@ -309,6 +321,12 @@ class SE:
                 st = {}
                 keys = set().union(*[set(s[1].keys()) for s in states])
                 for kx in keys:
+                    if any(kx not in s[1] for s in states):
+                        # written on some incoming paths only: the other paths still hold the value from before the branch
+                        if kx in self.kinds:
+                            for s_ in states:
+                                if kx not in s_[1]:
+                                    s_[1][kx] = self.initial_value(kx, self.kinds[kx])
                     vals = [(s[0], s[1][kx]) for s in states if kx in s[1]]
                     v = vals[-1][1]
                     for g, vv in reversed(vals[:-1]):
@@ -327,6 +345,8 @@ class SE:
                 sym = self.lpath(x['code']['sub'][0], st) if 'code' in x else x['instruction'].split('DECL ')[1].split(' :')[0].strip()
                 for p in [p for p in st if p == sym or p.startswith(sym + '.') or p.startswith(sym + '[')]:
                     del st[p]
+                for p in [p for p in self.initial if p == sym or p.startswith(sym + '.') or p.startswith(sym + '[')]:
+                    del self.initial[p]
             elif op == 'ASSUME':
                 self.assumes.append(z3.Implies(pc, self.ev(x['guard'], st)))
             elif op == 'ASSERT':
@@ -354,7 +374,12 @@ class SE:
                 cur = None if z3.is_false(ng) else (ng, st)
             elif op == 'ASSIGN':
                 lhs, rhs = x['code']['sub'][0], x['code']['sub'][1]
-                self.write(self.lpath(lhs, st), self.ev(rhs, st), st)
+                lp = self.lpath(lhs, st)
+                try:
+                    self.kinds[lp] = tkind(ty(lhs))
+                except Unsupported:
+                    pass
+                self.write(lp, self.ev(rhs, st), st)
             elif op == 'FUNCTION_CALL':
                 code = x['code']['sub']
                 lhs, fn, args = code[0], code[1], code[2].get('sub', [])
